@@ -422,9 +422,13 @@ fn frag_undefined(m: &mut M) -> bool {
 }
 
 fn frag_cycle(m: &mut M) -> bool {
-    let fi = frag_indices(m.doc);
+    let mut fi = frag_indices(m.doc);
     if fi.is_empty() {
-        return false;
+        // no named fragment yet: make one out of some selections (validity-preserving)
+        if !ctx::n_extract_fragment(m) {
+            return false;
+        }
+        fi = frag_indices(m.doc);
     }
     // target fragment F; place `...F` somewhere inside F (direct) or inside a fragment that F
     // spreads (long cycle); the place may be the root set, a nested field or an inline fragment
